@@ -21,11 +21,56 @@ import (
 // in any zone.  Every choice derives from the run's PRNG.
 type gen struct {
 	r *common.Rand
+	// enumeration mode (small-scope exhaustive): every choice is read from a script of
+	// digits (0 beyond its end) and the radix of every choice point is recorded; the value
+	// pools shrink to a few representatives (see the enum branches below)
+	enum    bool
+	script  []int
+	pos     int
+	radices []int
 	// bad allows text that is not representable in XML 1.0 (control
 	// characters, invalid UTF-8); such cases are only checked for
 	// well-formedness and absence of panics, not for round trip.
 	bad bool
 }
+
+// choice primitives: every random decision of a generator goes through these three
+func (g *gen) intn(n int) int {
+	if !g.enum {
+		return g.r.Intn(n)
+	}
+	if n <= 0 {
+		n = 1
+	}
+	d := 0
+	if g.pos < len(g.script) {
+		d = g.script[g.pos]
+	}
+	if d >= n {
+		d = n - 1
+	}
+	g.radices = append(g.radices, n)
+	g.pos++
+	return d
+}
+
+func (g *gen) boolean() bool {
+	if !g.enum {
+		return g.r.Bool()
+	}
+	return g.intn(2) == 1
+}
+
+func (g *gen) chance(num, den int) bool {
+	if !g.enum {
+		return g.r.Chance(num, den)
+	}
+	return g.intn(2) == 1
+}
+
+// enumText: the four-value text alphabet of the exhaustive part (empty, XML-special,
+// multi-line, non-ASCII)
+var enumText = []string{"", "a<&>\"'", "l1\nl2", "é"}
 
 var textPool = []string{
 	"", "a", "node", "x y", "<&>\"'", "a<b>c</b>&amp;", "]]>", "l1\nl2", "ends\n", "\n", "\r\n", "a\r\nb", "a\rb",
@@ -36,30 +81,36 @@ var textPool = []string{
 var badPool = []string{"\x00", "a\x01b", "\x1f", "\xff\xfe", "a\xc3", "\ufffe", "\uffff", "\x0b"}
 
 func (g *gen) text() string {
-	if g.bad && g.r.Chance(1, 3) {
-		return badPool[g.r.Intn(len(badPool))]
+	if g.enum {
+		return enumText[g.intn(len(enumText))]
 	}
-	switch g.r.Intn(10) {
+	if g.bad && g.chance(1, 3) {
+		return badPool[g.intn(len(badPool))]
+	}
+	switch g.intn(10) {
 	case 0:
 		return ""
 	case 1, 2, 3, 4, 5:
-		return textPool[g.r.Intn(len(textPool))]
+		return textPool[g.intn(len(textPool))]
 	case 6:
-		return textPool[g.r.Intn(len(textPool))] + textPool[g.r.Intn(len(textPool))]
+		return textPool[g.intn(len(textPool))] + textPool[g.intn(len(textPool))]
 	case 7:
-		return strings.Repeat(textPool[1+g.r.Intn(len(textPool)-1)], 1+g.r.Intn(40))
+		return strings.Repeat(textPool[1+g.intn(len(textPool)-1)], 1+g.intn(40))
 	}
-	n := 1 + g.r.Intn(6)
+	n := 1 + g.intn(6)
 	var sb strings.Builder
 	alpha := []rune("ab <>&'\"\n\r\té☃z09")
 	for i := 0; i < n; i++ {
-		sb.WriteRune(alpha[g.r.Intn(len(alpha))])
+		sb.WriteRune(alpha[g.intn(len(alpha))])
 	}
 	return sb.String()
 }
 
 // ntext is a non-empty text.
 func (g *gen) ntext() string {
+	if g.enum {
+		return enumText[1+g.intn(len(enumText)-1)]
+	}
 	for i := 0; i < 8; i++ {
 		if s := g.text(); s != "" {
 			return s
@@ -69,7 +120,10 @@ func (g *gen) ntext() string {
 }
 
 func (g *gen) opt() string {
-	if g.r.Bool() {
+	if g.enum {
+		return g.text()
+	}
+	if g.boolean() {
 		return ""
 	}
 	return g.text()
@@ -86,13 +140,20 @@ func (g *gen) texts(max int) []string {
 
 // count is 0, 1 or many.
 func (g *gen) count(max int) int {
-	switch g.r.Intn(4) {
+	if g.enum {
+		n := g.intn(3)
+		if n > max {
+			n = max
+		}
+		return n
+	}
+	switch g.intn(4) {
 	case 0:
 		return 0
 	case 1:
 		return 1
 	}
-	return g.r.Intn(max + 1)
+	return g.intn(max + 1)
 }
 
 var jidPool = []string{
@@ -101,7 +162,10 @@ var jidPool = []string{
 }
 
 func (g *gen) jid() jid.JID {
-	s := jidPool[g.r.Intn(len(jidPool))]
+	if g.enum {
+		return []jid.JID{{}, jid.MustParse("a@example.net"), jid.MustParse("user@example.net/<&>'\"")}[g.intn(3)]
+	}
+	s := jidPool[g.intn(len(jidPool))]
 	if s == "" {
 		return jid.JID{}
 	}
@@ -114,6 +178,9 @@ func (g *gen) jid() jid.JID {
 
 // njid is a non-zero JID.
 func (g *gen) njid() jid.JID {
+	if g.enum {
+		return []jid.JID{jid.MustParse("a@example.net"), jid.MustParse("user@example.net/<&>'\"")}[g.intn(2)]
+	}
 	for {
 		if j := g.jid(); !j.Equal(jid.JID{}) {
 			return j
@@ -122,7 +189,10 @@ func (g *gen) njid() jid.JID {
 }
 
 func (g *gen) u64() uint64 {
-	switch g.r.Intn(8) {
+	if g.enum {
+		return []uint64{0, 1, ^uint64(0)}[g.intn(3)]
+	}
+	switch g.intn(8) {
 	case 0:
 		return 0
 	case 1:
@@ -138,18 +208,21 @@ func (g *gen) u64() uint64 {
 }
 
 func (g *gen) bytes() []byte {
-	switch g.r.Intn(6) {
+	if g.enum {
+		return [][]byte{nil, {0x41}, {0, 0xff, 0x10, 0x20}}[g.intn(3)]
+	}
+	switch g.intn(6) {
 	case 0:
 		return nil
 	case 1:
-		return []byte{byte(g.r.Intn(256))}
+		return []byte{byte(g.intn(256))}
 	case 2:
 		return []byte{0, 0}
 	}
-	n := g.r.Intn(40)
+	n := g.intn(40)
 	b := make([]byte, n)
 	for i := range b {
-		b[i] = byte(g.r.Intn(256))
+		b[i] = byte(g.intn(256))
 	}
 	return b
 }
@@ -163,12 +236,19 @@ var zones = []*time.Location{
 // UTC and in its own zone) in any zone with any sub-second precision; zero
 // says whether the zero time may be returned.
 func (g *gen) time(zero bool) time.Time {
-	if zero && g.r.Chance(1, 5) {
+	if g.enum {
+		ts := []time.Time{time.Date(2020, 1, 2, 3, 4, 5, 0, time.UTC), time.Date(2020, 1, 2, 3, 4, 5, 600000001, zones[2])}
+		if zero {
+			ts = append([]time.Time{{}}, ts...)
+		}
+		return ts[g.intn(len(ts))]
+	}
+	if zero && g.chance(1, 5) {
 		return time.Time{}
 	}
-	loc := zones[g.r.Intn(len(zones))]
+	loc := zones[g.intn(len(zones))]
 	var nanos int
-	switch g.r.Intn(5) {
+	switch g.intn(5) {
 	case 0:
 		nanos = 0
 	case 1:
@@ -178,10 +258,10 @@ func (g *gen) time(zero bool) time.Time {
 	case 3:
 		nanos = 999999999
 	default:
-		nanos = g.r.Intn(1000000000)
+		nanos = g.intn(1000000000)
 	}
 	var t time.Time
-	switch g.r.Intn(8) {
+	switch g.intn(8) {
 	case 0:
 		t = time.Date(1, 1, 2, 0, 0, 0, nanos, loc)
 	case 1:
@@ -191,17 +271,20 @@ func (g *gen) time(zero bool) time.Time {
 	case 3:
 		t = time.Date(2016, 12, 31, 23, 59, 60, nanos, loc) // normalised leap second
 	default:
-		t = time.Date(1000+g.r.Intn(8000), time.Month(1+g.r.Intn(12)), 1+g.r.Intn(28), g.r.Intn(24), g.r.Intn(60), g.r.Intn(60), nanos, loc)
+		t = time.Date(1000+g.intn(8000), time.Month(1+g.intn(12)), 1+g.intn(28), g.intn(24), g.intn(60), g.intn(60), nanos, loc)
 	}
 	return t
 }
 
 // farTime is a time whose year is outside 0000-9999.
 func (g *gen) farTime() time.Time {
-	if g.r.Bool() {
-		return time.Date(10000+g.r.Intn(5000), 1, 1, 0, 0, 0, 0, time.UTC)
+	if g.enum {
+		return time.Date(10000, 1, 1, 0, 0, 0, 0, time.UTC)
 	}
-	return time.Date(-1-g.r.Intn(500), 6, 1, 0, 0, 0, 0, time.UTC)
+	if g.boolean() {
+		return time.Date(10000+g.intn(5000), 1, 1, 0, 0, 0, 0, time.UTC)
+	}
+	return time.Date(-1-g.intn(500), 6, 1, 0, 0, 0, 0, time.UTC)
 }
 
 // ---- canonical rendering ------------------------------------------------------
